@@ -23,6 +23,7 @@ pub fn units(tier: &str, _seed: u64) -> Vec<String> {
     for m in ["elpvaux", "hp"] {
         v.push(unit(&[("mix", m), ("n", "1"), ("extra", "nepbsame"), ("bud", "60")]));
     }
+    v.push(unit(&[("mix", "elpv"), ("n", "1"), ("extra", "tagcal"), ("bud", "60")]));
     // the boiler whose output is declared also heats (same system id: consumption and output of another service)
     v.push(unit(&[("mix", "bioout"), ("n", "1"), ("extra", "samesys")]));
     v.push(unit(&[("mix", "bioout"), ("n", "1"), ("extra", "calgas")]));
@@ -185,6 +186,10 @@ fn build(mix: &str, n: usize, extra: &str) -> (String, Option<F>) {
         // non-EPB consumption declared under the id of the DHW system itself
         s.push_str(&format!("1, CONSUMO, NEPB, GASNATURAL, {}\n", row("xn")));
     }
+    if extra == "tagcal" || extra == "untagcal" {
+        // electricity use of another service, with / without the legacy label of auxiliary energy in its comment
+        s.push_str(&format!("CONSUMO, CAL, ELECTRICIDAD, {}{}\n", row("xe"), if extra == "tagcal" { " # CTEEPBD_AUX bomba de calefaccion" } else { " # bomba de calefaccion" }));
+    }
     if extra == "samesys" {
         s.push_str(&format!("3, CONSUMO, CAL, BIOMASA, {}\n3, SALIDA, CAL, {}\n", row("xb"), rowf(&|t| k(0.75) * e("xb", t))));
     }
@@ -195,7 +200,7 @@ pub fn scenario(u: &Unit) -> String {
     let n = u.n();
     let (text, closed) = build(u.get("mix"), n, u.get("extra"));
     // the same DHW supply without the extra lines (invariance)
-    let (base_text, _) = build(u.get("mix"), n, "none");
+    let (base_text, _) = build(u.get("mix"), n, if u.get("extra") == "tagcal" { "untagcal" } else { "none" });
     let fp = match factors("PEN", &[]) {
         Ok(x) => x,
         Err(e) => return err_kind(&e).to_string(),
@@ -222,6 +227,16 @@ pub fn scenario(u: &Unit) -> String {
             return err_kind(&e).to_string();
         }
     };
+    if u.get("extra") == "tagcal" {
+        // with another electricity use the closed form of the mix no longer applies: what is stated is that the
+        // text of a comment does not matter (same line with and without the legacy label)
+        match (fr, run(&base_text, kexp)) {
+            (Ok(x), Ok((Ok(xb), _))) => ob_via("comment-text-does-not-matter", "same-term", x.ident(xb), x.approx(xb, 64.0, k(1.0))),
+            (Err(_), Ok((Err(_), _))) => {}
+            _ => ob("comment-text-does-not-matter.outcome", f()),
+        }
+        return "ok".into();
+    }
     let misc = ep.misc.as_ref();
     let has_val = misc.map(|m| m.contains_key("fraccion_renovable_demanda_acs_nrb")).unwrap_or(false);
     let has_err = misc.map(|m| m.contains_key("error_acs")).unwrap_or(false);
